@@ -117,6 +117,8 @@ def pub_vis(text):
 TABLE_PATH = re.compile(r"(table|table_l|table_r)$")
 
 def rewrite_R1(text, in_table_impl):
+    # local variables that hold the inner Vec (bound from into_inner()/as_mut()/as_ref()) are not Tables
+    vec_names = set(re.findall(r"\blet\s+(?:mut\s+)?([A-Za-z_][A-Za-z0-9_]*)\s*(?::[^=;]*)?=\s*[^;]*?\.(?:into_inner|as_mut|as_ref)\(\)\s*;", text))
     toks = retok(text)
     out = []
     n = len(toks)
@@ -138,7 +140,7 @@ def rewrite_R1(text, in_table_impl):
             p = prev_sig(k)
             if p is not None:
                 is_table = False
-                if p.kind == "ident" and TABLE_PATH.search(p.text):
+                if p.kind == "ident" and TABLE_PATH.search(p.text) and not (p.text in vec_names and (prev_sig(k, 2) is None or prev_sig(k, 2).text != ".")):
                     is_table = True
                 elif p.kind == "ident" and p.text == "self" and in_table_impl:
                     is_table = True
